@@ -130,6 +130,14 @@ func main() {
 	rng := r.Rand("gen")
 	max16, max64, max8 := big.NewInt(65535), sub1(pow2(64)), big.NewInt(255)
 	n := r.Pick(50000, 1500000)
+	type heldMsg struct {
+		mp      *common.MessagePublication
+		payload []byte
+		sender  []byte
+		seq     uint64
+		desc    map[string]interface{}
+	}
+	var held []heldMsg
 	for i := 0; i < n; i++ {
 		sender := genBV(rng, []int{32, 32, 32, 32, 32, 32, 31, 33, 0, 64}, 32)
 		target := genNum(rng, max16)
@@ -233,9 +241,26 @@ func main() {
 			}
 			if bad != "" {
 				r.Violation("field-mapped-wrongly:"+bad, desc)
+			} else {
+				// messages wait (for confirmations, in the hand-over queue) while later events are decoded: a message that
+				// was right when it was produced must still be right then - it may not share storage with later conversions
+				held = append(held, heldMsg{mp, append([]byte{}, payload.bytes...), sender.bytes, mp.Sequence, desc})
+				if len(held) > 16 {
+					held = held[1:]
+				}
 			}
 		default:
 			r.Count("non_fitting_events_rejected", 1)
+		}
+		for hi := 0; hi < len(held)-1; hi++ { // every conversion, accepted or not, is followed by a look at the waiting ones
+			h := held[hi]
+			if !bytes.Equal(h.mp.Payload, h.payload) || !bytes.Equal(h.mp.EmitterAddress[:], h.sender) || h.mp.Sequence != h.seq {
+				h.desc["conversions_since"] = len(held) - 1 - hi
+				r.Violation("message-changed-by-a-later-conversion", h.desc)
+				held = nil
+				break
+			}
+			r.Count("held_messages_rechecked", 1)
 		}
 	}
 	// ---- id/address and hex converters are mutual inverses
